@@ -53,6 +53,9 @@ mod engine {
         SplitTo,
         Advance,
         Truncate,
+        /// consumption on the Bytes side: freeze the whole buffer, read it, clear()/truncate(0)/advance(len)
+        /// the Bytes, convert it back (the handle is alone on its buffer all the time)
+        BytesClear,
     }
     #[derive(Clone, Copy, PartialEq, Eq, Debug)]
     enum Rt {
@@ -81,6 +84,7 @@ mod engine {
                 Cons::SplitTo => "split_to",
                 Cons::Advance => "advance",
                 Cons::Truncate => "truncate",
+                Cons::BytesClear => "bytes_clear",
             }
         }
         fn rt_s(&self) -> &'static str {
@@ -121,7 +125,7 @@ mod engine {
     /// The whole grid in a fixed order; the position is the pattern index.
     fn grid() -> Vec<Pattern> {
         let mut g = Vec::new();
-        for cons in [Cons::Split, Cons::SplitTo, Cons::Advance, Cons::Truncate] {
+        for cons in [Cons::Split, Cons::SplitTo, Cons::Advance, Cons::Truncate, Cons::BytesClear] {
             let has_part = matches!(cons, Cons::Split | Cons::SplitTo);
             for freeze in [false, true] {
                 if freeze && !has_part {
@@ -140,8 +144,11 @@ mod engine {
                                             continue;
                                         }
                                         for &leftover in LEFT.iter() {
-                                            if cons == Cons::Split && leftover != 0 {
-                                                continue; // split() takes everything
+                                            if (cons == Cons::Split || cons == Cons::BytesClear) && leftover != 0 {
+                                                continue; // takes everything
+                                            }
+                                            if cons == Cons::BytesClear && rt != Rt::None {
+                                                continue; // the round trip is the consumption itself
                                             }
                                             g.push(Pattern { cons, freeze, rt, unsplit, keep, cap, support, random, leftover });
                                         }
@@ -237,13 +244,16 @@ mod engine {
         let mut maxbuf = p.cap;
         for r in 0..total {
             let n = sizes.next(r);
+            // Bytes-side consumption: keep one spare byte so that the frozen handle is never in the
+            // exactly-full (promotable) form, whose clear()/truncate(0) legitimately releases the buffer
+            let want = if p.cons == Cons::BytesClear { n + 1 } else { n };
             // ---- refill
             let mut probe_block = 0usize;
             if p.keep == 0 && buf.is_empty() {
                 let addr = buf.as_ptr() as usize;
                 if addr > 4096 {
                     if let Some(b) = ledger::find_live(addr) {
-                        if b.isbyte && b.size >= n {
+                        if b.isbyte && b.size >= want {
                             probe_block = b.size;
                         }
                     }
@@ -251,7 +261,7 @@ mod engine {
             }
             let hcap = buf.capacity();
             ledger::reset_events();
-            buf.reserve(n);
+            buf.reserve(want);
             let ev = ledger::events();
             run.reserve_calls += 1;
             if ev.byte_allocs == 0 {
@@ -275,9 +285,15 @@ mod engine {
             buf.extend_from_slice(&SRC[..n]);
             // ---- split a tail off and put it back
             if p.unsplit {
-                let at = aux.below(buf.len() + 1);
-                let tail = buf.split_off(at);
-                buf.unsplit(tail);
+                if r % 2 == 0 {
+                    let at = aux.below(buf.len() + 1);
+                    let tail = buf.split_off(at);
+                    buf.unsplit(tail);
+                } else {
+                    // put-back: take everything out and hand it back to the (empty, non-zero capacity) rest
+                    let head = buf.split();
+                    buf.unsplit(head);
+                }
                 run.unsplits += 1;
             }
             // ---- consume
@@ -294,6 +310,28 @@ mod engine {
                 Cons::Truncate => {
                     std::hint::black_box(&buf[..]);
                     buf.truncate(p.leftover);
+                    None
+                }
+                Cons::BytesClear => {
+                    let mut b: Bytes = std::mem::take(&mut buf).freeze();
+                    std::hint::black_box(&b[..]);
+                    match (r + idx) % 3 {
+                        0 => b.clear(),
+                        1 => b.truncate(0),
+                        _ => {
+                            let n = b.len();
+                            b.advance(n)
+                        }
+                    }
+                    buf = if idx % 2 == 0 {
+                        BytesMut::from(b)
+                    } else {
+                        match b.try_into_mut() {
+                            Ok(m) => m,
+                            Err(b) => BytesMut::from(b),
+                        }
+                    };
+                    run.roundtrips += 1;
                     None
                 }
             };
